@@ -17,6 +17,7 @@ import (
 	"sort"
 	"strings"
 	"sync"
+	"sync/atomic"
 	"time"
 
 	"wa-lang.org/wa/api"
@@ -194,6 +195,7 @@ type JobResult struct {
 	Baselines  map[string]string
 	Err        string
 	Dirty      bool // the process must not be reused
+	Blocked    int  // decisions at which the running thread was blocked on a lock held by another thread
 }
 
 var baselines = map[string]string{}
@@ -241,6 +243,11 @@ func handleJob(raw json.RawMessage) interface{} {
 		x := sched.Run(bodies(j.Scenario), prefix, opt)
 		res.Executions++
 		res.Points += x.Points
+		for _, d := range x.Decisions {
+			if d.Thread >= 0 && !d.RunningEnabled && strings.Contains(d.Site, "Lock") {
+				res.Blocked++
+			}
+		}
 		if x.Stuck != "" || x.Diverged != "" {
 			res.Err = "schedule " + fmt.Sprint(prefix) + ": " + x.Stuck + x.Diverged
 			res.Dirty = true
@@ -311,6 +318,7 @@ func handleJob(raw json.RawMessage) interface{} {
 }
 
 var coldBaselines map[string]string
+var blockedSwitches atomic.Int64
 
 func (sc scenario) baselineFor(name string) (string, bool) {
 	if b, ok := baselines[name]; ok {
@@ -439,6 +447,7 @@ func main() {
 		_ = ok
 		fmt.Fprintf(os.Stderr, "[c28 %s] scenario %s: default execution has %d decisions, %d points\n", time.Now().Format("15:04:05"), sc.Name, len(root.Decisions), root.Points)
 		execs := int64(root.Executions)
+		blockedSwitches.Add(int64(root.Blocked))
 		r.Transitions.Add(int64(len(root.Decisions)))
 		for _, v := range root.Viols {
 			report(sc, v)
@@ -483,6 +492,7 @@ func main() {
 					r.HarnessError("scenario %s prefix %v: %s", sc.Name, js[res.Index].Prefix, jr.Err)
 				}
 				execs += int64(jr.Executions)
+				blockedSwitches.Add(int64(jr.Blocked))
 				r.Transitions.Add(jr.Points)
 				for _, v := range jr.Viols {
 					report(sc, v)
@@ -509,6 +519,7 @@ func main() {
 					return
 				}
 				execs += int64(jr.Executions)
+				blockedSwitches.Add(int64(jr.Blocked))
 				r.Transitions.Add(jr.Points)
 				for _, v := range jr.Viols {
 					report(sc, v)
@@ -563,6 +574,10 @@ func main() {
 		}
 	}
 	r.Extra("per_scenario", perScenario)
+	r.Extra("decisions_where_a_thread_was_blocked_on_a_lock", blockedSwitches.Load())
+	if blockedSwitches.Load() == 0 && len(perScenario) > 0 && os.Getenv("C28_ONLY") != "race" {
+		r.HarnessError("vacuous: no execution ever blocked a thread on a lock held by the other thread (the calls did not contend)")
+	}
 	if os.Getenv("C28_ONLY") == "" || os.Getenv("C28_ONLY") == "race" {
 		racePass(r, scs)
 	}
